@@ -68,7 +68,7 @@ def seasonal(dates, amp):
     return 1 + amp * np.cos(2 * np.pi * (doy_of(dates) - 172) / 365.25)
 
 
-def gen_var(nprs, var, dates, bias):
+def gen_var(nprs, var, dates, bias, polar=False):
     """in-range data for a bounded ISIMIP variable; `bias` in {-1, 0, 1} shifts the distribution (dry / none / wet bias)"""
     n = dates.size
     if var == "hurs":  # percent, saturation at 100 and (rarely) 0
@@ -90,6 +90,14 @@ def gen_var(nprs, var, dates, bias):
         x[nprs.random_sample(n) < 0.01] = 0.0
         x[nprs.random_sample(n) < 0.01] = 1.0
         return x
+    if var == "rsds" and polar:
+        # high latitude: polar night (rsds exactly 0 on ~150 consecutive days of year, in every year) and a midnight-sun
+        # season with days at the clear-sky envelope (the upper bound of the scaled variable)
+        top = {-1: 180.0, 0: 250.0, 1: 330.0}[bias]
+        env = np.maximum(0.0, np.cos(2 * np.pi * (doy_of(dates) - 172) / 365.25) + 0.2) / 1.2
+        cloud = nprs.beta(3.0, 1.5, n)
+        cloud[nprs.random_sample(n) < 0.1] = 1.0
+        return top * env * cloud
     if var == "rsds":  # W m-2: seasonal clear-sky envelope times a cloud factor
         top = {-1: 220.0, 0: 300.0, 1: 380.0}[bias]
         x = top * np.maximum(seasonal(dates, 0.75), 0.02) * nprs.beta(3.0, 1.5, n)
@@ -127,6 +135,8 @@ def make_debiaser(name, mode, var="pr", fast=True, delta_shift="additive", year_
             return DeltaChange.from_variable("pr", **rw)
         if name == "QuantileMapping-hurdle":
             return QuantileMapping.for_precipitation(model_type="hurdle", **rw)
+        if name == "QuantileMapping-hurdle-norand":
+            return QuantileMapping.for_precipitation(model_type="hurdle", hurdle_model_randomization=False, **rw)
         if name == "QuantileMapping-censored":
             return QuantileMapping.for_precipitation(model_type="censored", censoring_threshold=THR_ISIMIP, **rw)
         if name == "QuantileMapping-fromvar":
@@ -325,6 +335,17 @@ def gen_case(rng, name, var, mode, tier, long_future=False, regime=None):
             case["years"] = rng.choice([4, 6, 10])
             case["year_windows"] = True if name == "CDFt" else rng.choice([True, True, False])
             case["wet_floor"] = rng.choice([THR_ISIMIP, THR_ISIMIP, 0.0])
+        if regime == "bell":
+            # bell-shaped wet-day amounts (gamma shape 1.2 - 8: a freely fitted location would come out negative), the model
+            # with fewer dry days than the observations so that its smallest wet values sit at the lowest wet quantiles
+            case["regime"] = regime
+            case["shape"] = [round(rng.choice([rng.uniform(1.2, 2.5), rng.uniform(2.0, 8.0)]), 2) for _ in range(3)]
+            case["scale"] = [rng.choice([2e-5, 3e-5, 5e-5]) for _ in range(3)]
+            po = rng.uniform(0.3, 0.6)
+            case["pdry"] = [round(po, 3), round(rng.uniform(0.05, po - 0.1), 3), round(rng.uniform(0.05, 0.5), 3)]
+            case["drizzle"], case["at_threshold"], case["wet_floor"] = 0.0, 0, 0.0
+            case["years"] = rng.choice([6, 10])
+            case["probes"] = 80 if name.startswith("QuantileMapping") and mode == "nowin" else 0
         if regime == "default-windows":
             # ISIMIP as from_variable builds it (window 31, step 1) over whole calendar years incl. leap years, model
             # drizzle on every 31 December: every day of the year (also day 366) must come out adjusted
@@ -338,6 +359,10 @@ def gen_case(rng, name, var, mode, tier, long_future=False, regime=None):
             case["pdry"] = [round(rng.uniform(0.05, 0.5), 3) for _ in range(3)]
             case["wet_floor"], case["years"] = 0.0, 5
             case["sequence"] = rng.choice(SEQUENCES[name])
+    elif regime == "polar":
+        case.update(regime=regime, polar=True, whole_years=True, years=4, lookup_path=rng.random() < 0.4)
+        case["bias"] = [rng.choice([-1, 0, 1]) for _ in range(3)]
+        case["nan_fraction"] = 0.0
     elif regime == "default-windows":
         case.update(default_windows=True, whole_years=True, years=4, regime=regime)
         case["bias"] = [rng.choice([-1, 0, 1]) for _ in range(3)]
@@ -375,13 +400,15 @@ def build_inputs(case):
             return dates_from(y, (datetime.date(y + k, 1, 1) - datetime.date(y, 1, 1)).days)
         y0 = 1960 + 4 * int(nprs.randint(0, 8)) + int(nprs.randint(0, 4))
         tO, tH, tF = span(y0, case["years"]), span(y0, case["years"]), span(2040 + 4 * int(nprs.randint(0, 5)), case["years"])
+        if case.get("lookup_path"):  # obs without a leap day: the sets of days of year differ (step 1 takes the lookup path)
+            tO = span(1961 + 4 * int(nprs.randint(0, 8)), 3)
     var = case["variable"]
     if var == "pr":
         series = [gen_pr(nprs, t.size, case["pdry"][k], case["shape"][k], case["scale"][k], case["drizzle"], case["at_threshold"],
                          case.get("wet_floor", 0.0))
                   for k, t in enumerate((tO, tH, tF))]
     else:
-        series = [gen_var(nprs, var, t, case["bias"][k]) for k, t in enumerate((tO, tH, tF))]
+        series = [gen_var(nprs, var, t, case["bias"][k], polar=bool(case.get("polar"))) for k, t in enumerate((tO, tH, tF))]
         if case.get("nan_fraction"):
             for x in series:
                 x[nprs.random_sample(x.size) < case["nan_fraction"]] = np.nan
@@ -418,7 +445,7 @@ def judge(deb, case, series, dates, np_seed, info):
     if exc is not None:
         info["exception"] = exc
         return "exception", []
-    if any("no pseudo-future observations" in m for m in msgs):
+    if any("no pseudo-future observations" in m for m in msgs) and var != "rsds":
         info["unadjusted_path"] = True  # `Wet` fails in some window: the property does not speak about this run
         return "outside", []
     bad = check_pr(name, deb, out, series) if var == "pr" else []
@@ -434,6 +461,47 @@ def judge(deb, case, series, dates, np_seed, info):
     return "ok", problems
 
 
+def add_low_quantile_probes(deb, series, nprs, n_probes):
+    """model values at the extreme low wet quantiles: cm_future values x (on wet days) that the debiaser's own, public
+    distribution model (`distribution.fit` / `.cdf`) sends to the wet quantiles 1e-13 .. 1e-2 of the obs distribution, i.e.
+    cdf_hist(x / delta) = p0_obs + (1 - p0_obs) * eps with delta = mean(cm_future) / mean(cm_hist) (the multiplicative
+    detrending of QuantileMapping).  Valid non-negative input; returns the number of probes placed."""
+    o, h, f = series
+    dist = deb.distribution
+    with warnings.catch_warnings(), np.errstate(all="ignore"):
+        warnings.simplefilter("ignore")
+        try:
+            fo, fh = dist.fit(o), dist.fit(h)
+            p0o = float(fo[0])
+
+            def cdf(x):
+                return float(np.asarray(dist.cdf(np.array([x]), *fh)).ravel()[0])
+
+            lo0, hi0 = float(h[h > 0].min()) * 1e-6, float(h.max())
+            xs = []
+            for eps in np.geomspace(1e-13, 1e-2, n_probes):
+                q = p0o + (1 - p0o) * eps
+                if not (cdf(lo0) < q < cdf(hi0)):
+                    continue
+                lo, hi = lo0, hi0
+                for _ in range(200):
+                    mid = 0.5 * (lo + hi)
+                    if cdf(mid) < q:
+                        lo = mid
+                    else:
+                        hi = mid
+                xs.append(hi)
+        except Exception:  # noqa: BLE001  (a model without fit / cdf of this shape: no probes)
+            return 0
+    wet = np.where(f > 0)[0]
+    if not xs or wet.size < 4 * len(xs):
+        return 0
+    pos = nprs.choice(wet, size=len(xs), replace=False)
+    for _ in range(6):
+        f[pos] = np.array(xs) * (f.mean() / h.mean())
+    return len(xs)
+
+
 def run_case(case):
     """-> (status, problems, info); status in ok | outside | exception"""
     series, dates = build_inputs(case)
@@ -443,6 +511,8 @@ def run_case(case):
                         default_windows=bool(case.get("default_windows")))
     info = {}
     seed = case["case_seed"] % (2**31 - 1)
+    if case.get("probes") and var == "pr" and hasattr(getattr(deb, "distribution", None), "fit"):
+        info["low_quantile_probes"] = add_low_quantile_probes(deb, series, np.random.RandomState(seed), case["probes"])
     status, problems = judge(deb, case, series, dates, seed, info)
     if status != "ok" or problems:
         return status, problems, info
@@ -627,6 +697,12 @@ def run(tier, res, force_search=False):
             plan += [("ISIMIP", "pr", "win", "default-windows"), ("ISIMIP", ("hurs", "sfcwind", "tasrange")[r % 3], "win", "default-windows")]
         plan += [("ISIMIP", "pr", ("nowin", "win")[r % 2], "sequence"), ("ISIMIP", ("sfcwind", "tasrange", "hurs", "tasskew")[r % 4], ("win", "nowin")[r % 2], "sequence"),
                  ("QuantileDeltaMapping", "pr", "nowin", "sequence"), ("ScaledDistributionMapping", "pr", "nowin", "sequence")]
+        # bell-shaped wet amounts on every for_precipitation constructor of the statement (default keywords); polar rsds
+        plan += [("QuantileMapping-hurdle", "pr", "nowin", "bell")] * 3
+        plan += [("QuantileMapping-hurdle-norand", "pr", "nowin", "bell"), ("QuantileMapping-hurdle", "pr", "win", "bell"),
+                 ("QuantileMapping-fromvar", "pr", "nowin", "bell"), ("QuantileMapping-censored", "pr", "nowin", "bell"),
+                 ("ScaledDistributionMapping-forpr", "pr", "nowin", "bell"), ("QuantileDeltaMapping-forpr", "pr", "nowin", "bell")]
+        plan += [("ISIMIP", "rsds", ("win", "nowin")[r % 2], "polar"), ("ISIMIP", "rsds", ("nowin", "win")[r % 2], "polar")]
         # doubly bounded variables with the parametric step 6 and near-bound data (rsds: only its own statement, >= 0)
         for j, var in enumerate(("hurs", "prsnratio", "tasskew")):
             plan.append(("ISIMIP", var, ("nowin", "win")[(r + j) % 2], "near-bound"))
@@ -637,7 +713,7 @@ def run(tier, res, force_search=False):
             res.notes.append(f"oracle stopped after {k} of {len(plan)} planned cases (time budget)")
             break
         tag = rest[0] if rest else None
-        case = gen_case(rng, name, var, mode, tier, long_future=(tag == "long"), regime=(tag if tag in ("monsoon", "near-bound", "default-windows", "sequence") else None))
+        case = gen_case(rng, name, var, mode, tier, long_future=(tag == "long"), regime=(tag if tag in ("monsoon", "near-bound", "default-windows", "sequence", "bell", "polar") else None))
         status, problems, info = run_case(case)
         key = f"{name}/{var}/{mode}" + (f"/{tag}" if tag else "")
         st = stats.setdefault(key, {"ok": 0, "outside": 0, "exception": 0, "violations": 0})
